@@ -51,8 +51,7 @@ structure State where
   made : Nat → Bool := fun _ => false
   dph : Nat → DPh := fun _ => .none
   dch : Nat → Nat := fun _ => 0
-  liveOn : Nat → Nat := fun _ => 0     -- ghost: event loops listening on a channel that have not ended
-  tearing : Bool := false              -- ghost: a Stop/Restart has closed the channel and the status is not yet stopped/running
+  ds : List Nat := []                  -- goroutines started as event loops so far
   owes : Nat → Nat := fun _ => 0
   nOwes : Nat := 0
 
@@ -67,6 +66,9 @@ def owe (s : State) (g : Nat) : State := { s with owes := upd s.owes g (s.owes g
 
 def isD (s : State) (d : Nat) : Bool := s.dph d != .none
 
+/-- an event loop that has not ended listens on channel `ch` -/
+def liveOn (s : State) (ch : Nat) : Bool := s.ds.any (fun d => s.dph d != .none && s.dch d == ch)
+
 def step (s : State) : Ev → Except String State
   | .makeSig g ch =>
     let _ := g
@@ -79,14 +81,14 @@ def step (s : State) : Ev → Except String State
     match s.chan with
     | some ch =>
       if s.ws == running then .error "signal channel closed while running"
-      else .ok { s with chan := none, closed := upd s.closed ch true, tearing := true }
+      else .ok { s with chan := none, closed := upd s.closed ch true }
     | none => .error "close of the nil signal channel"
   | .spawnD g d =>
     let _ := g
     match s.chan with
     | some ch =>
       if s.dph d != .none then .error "goroutine is already an event loop"
-      else .ok { s with dph := upd s.dph d .parked, dch := upd s.dch d ch, liveOn := upd s.liveOn ch (s.liveOn ch + 1) }
+      else .ok { s with dph := upd s.dph d .parked, dch := upd s.dch d ch, ds := d :: s.ds }
     | none => .error "event loop started on a nil channel"
   | .recvTok d =>
     if !isD s d then .error "receive on the signal channel by a goroutine that is not an event loop"
@@ -97,8 +99,7 @@ def step (s : State) : Ev → Except String State
     if !isD s d then .error "not an event loop"
     else if !(s.closed (s.dch d)) || s.tok (s.dch d) then .error "range over the signal channel ended although it is open or holds a token"
     else if s.dph d != .parked then .error "event loop ends before finishing its activation"
-    else if s.liveOn (s.dch d) == 0 then .error "ghost counter liveOn is 0"
-    else .ok { s with dph := upd s.dph d .none, liveOn := upd s.liveOn (s.dch d) (s.liveOn (s.dch d) - 1) }
+    else .ok { s with dph := upd s.dph d .none }
   | .dStatus d v =>
     if !isD s d then .error "loop condition evaluated by a goroutine that is not an event loop"
     else if v != s.ws then .error s!"IsRunning: loaded {v}, model has {s.ws}"
@@ -143,11 +144,9 @@ def step (s : State) : Ev → Except String State
     if v == running then
       match s.chan with
       | some ch =>
-        if s.closed ch then .error "status running stored while the signal channel is closed"
-        else if s.liveOn ch == 0 then .error "status running stored without an event loop on the signal channel"
-        else .ok (owe { s with ws := v, tearing := false } g)
+        if !liveOn s ch then .error "status running stored without an event loop on the signal channel"
+        else .ok (owe { s with ws := v } g)
       | none => .error "status running stored while the signal channel is nil"
-    else if v == stopped then .ok { s with ws := v, tearing := false }
     else .ok { s with ws := v }
   | .stConc g v =>
     if v > s.conc then .ok (owe { s with conc := v } g) else .ok { s with conc := v }
@@ -179,6 +178,10 @@ def Dispatchable (s : State) : Prop := s.ws = running ∧ s.cur < s.conc ∧ 0 <
 
 /-- the current signal channel holds a token -/
 def TokCur (s : State) : Prop := ∃ ch, s.chan = some ch ∧ s.tok ch = true
+
+/-- an event loop that has not ended listens on the current signal channel, which is open -/
+def Listening (s : State) : Prop :=
+  ∃ ch, s.chan = some ch ∧ s.closed ch = false ∧ ∃ d ∈ s.ds, s.dph d ≠ .none ∧ s.dch d = ch
 
 end Sig2
 end VarmqVerif
